@@ -18,7 +18,8 @@
    the prover's output is C10_status_ok / C10_status_missing / C10_status_unknown (Properties/C10.v). *)
 From Coq Require Import List Ascii String ZArith NArith.
 From Anthem Require Import Base.Fresh Syntax.Fol Syntax.Asp Syntax.Tff Model.Limits Proofs.LimitsOk Model.Subst Proofs.SubstOk
-  Model.TptpPrint Model.TauStar Model.Completion Proofs.FagesTauStar.
+  Model.TptpPrint Model.TauStar Model.Completion Proofs.FagesTauStar
+  Model.StrategyCls Model.ClsTerm Proofs.SimplClassicTotal Proofs.ParserImage.
 Open Scope string_scope.
 
 (* fresh-name searches (`while taken.contains(..)`, `find(..).unwrap()`) never run out: with fuel
@@ -76,6 +77,16 @@ Theorem C16_completion_expect_unreachable : forall (P : program) (G : theory) (i
   tau_star P = Some G -> exists D, completion G ins = Some D.
 Proof. exact C04_tau_star_completable_proof. Qed.
 Print Assumptions C16_completion_expect_unreachable.
+
+(* the panics of classic.rs (`guards[0]`, `chars().next().unwrap()`, the replacement-helper
+   `panic!`): never on a parser-image tree - every comparison has a guard, every bound variable a
+   non-empty name - under any strategy and any fuel; the invariant is preserved by all fifteen
+   rewrites (Properties/C07full.v) *)
+Theorem C16_classic_portfolio_no_panic :
+  forall (fuel : nat) (s : strategy) (F : formula), parser_image F ->
+    run_strategy_opt fuel portfolio_classic_opt s F <> RPanic.
+Proof. exact classic_no_panic. Qed.
+Print Assumptions C16_classic_portfolio_no_panic.
 
 (* witnesses of the known classes (replayed on the real binary by bin/check C16), the regression case
    of the repaired F3b, and boundary cases *)
